@@ -983,3 +983,183 @@ def c05_r3(ctx, f, rid="C05.R3"):
     for why, insts in sorted(undecided.items()):
         ctx.abstain(rid, "QRCode::new not foldable (%s), e.g. %s" % (why, insts[0]), where_fn(fn))
     return not undecided
+
+
+# ---------------------------------------------------------------------------------------------------------------------
+# C18.R2 / R3: the embedded-image frame, numerically, from SvgBuilder::image
+# ---------------------------------------------------------------------------------------------------------------------
+
+SVGB = "convert::svg::SvgBuilder"
+SHAPE = "convert::ImageBackgroundShape"
+
+
+def _fopt(x):
+    return _opt(None if x is None else ("float", float(x)))
+
+
+def _image_eval(pe, f, n, margin, shape, size=None, gap=None, pos=None):
+    adt = f.adts[SVGB]
+    col = ("adt", "convert::Color", 0, "Color", (("string", tuple(ord(c) for c in "#abcdef")),))
+    vals = {
+        "commands": TOP, "command_colors": TOP, "margin": fold.mk_int("usize", margin), "background_color": col, "dot_color": col,
+        "image": _opt(("string", (("disp", "IMG"),))), "image_background_color": col,
+        "image_background_shape": mk_enum(SHAPE, shape), "image_size": _fopt(size), "image_gap": _fopt(gap),
+        "image_position": _opt(None if pos is None else ("tuple", (("float", float(pos[0])), ("float", float(pos[1]))))),
+    }
+    names = [fl["name"] for fl in adt["variants"][0]["fields"]]
+    if set(names) - set(vals):
+        return ("top", "SvgBuilder has fields the rule does not know: %s" % sorted(set(names) - set(vals)))
+    selfv = ("adt", SVGB, 0, "SvgBuilder", tuple(vals[nm] for nm in names))
+    r = pe.run(SVGB + "::image", [("ref", ("const", selfv)), fold.mk_int("usize", n)])
+    if r.kind != "ret":
+        return (r.kind, r.why)
+    v = r.value
+    if v == TOP or v[0] != "string":
+        return ("top", "image() does not return a known string")
+    # text with numbered holes
+    txt = ""
+    holes = []
+    for tok in v[1]:
+        if isinstance(tok, int):
+            txt += chr(tok)
+        else:
+            txt += "\x00%d\x00" % len(holes)
+            holes.append(tok)
+    import re
+
+    def num(attr, el):
+        m = re.search(r"<%s\b[^>]*?\b%s=\"\x00(\d+)\x00(px)?\"" % (el, attr), txt)
+        if not m:
+            return None
+        h = holes[int(m.group(1))]
+        val = h[1] if h[0] == "disp" else None
+        return val[1] if val not in (None, TOP) and val[0] == "float" else None
+    out = {}
+    for el in ("rect", "image"):
+        for attr in ("x", "y", "width", "height"):
+            out[(el, attr)] = num(attr, el)
+    out["n_rect"] = len(re.findall(r"<rect\b", txt))
+    out["n_image"] = len(re.findall(r"<image\b", txt))
+    return ("ret", out)
+
+
+def _frame_job(v):
+    f = _G["facts"]
+    n = ref.side(v)
+    out = {"v": v, "default": {}, "over": {}}
+    pe = peval.PEval(f, max_steps=400000)
+    pe.summaries["convert::svg::escape_attribute"] = lambda pe_, st, a, t: ("string", (("disp", "ESCAPED"),))
+    for shape in ("Square", "Circle", "RoundedSquare"):
+        for m in range(0, 17):
+            out["default"][(shape, m)] = _image_eval(pe, f, n, m, shape)
+    if v in _G["frame_over_versions"]:
+        for shape in ("Square", "Circle"):
+            for m in (0, 1, 4):
+                for size in (None, 3.0, 4.5, 10.0):
+                    for gap in (None, 0.0, 1.0, 2.5):
+                        for pos in (None, (n / 2.0 + m, n / 2.0 + m), (10.25 + m, 7.5 + m), (float(m + 12), float(m + 9))):
+                            if size is None and gap is None and pos is None:
+                                continue
+                            out["over"][(shape, m, size, gap, pos)] = _image_eval(pe, f, n, m, shape, size, gap, pos)
+    return out
+
+
+def c18_r2(ctx, f, rid="C18.R2"):
+    ctx.rule(rid, "image frame by partial evaluation of SvgBuilder::image: default placement for 40 versions x 3 shapes x margins 0..16 "
+                  "(centred, on module boundaries, side non-decreasing, < 40%, clear of finders, image centred inside and not larger); "
+                  "explicit size/gap/position honoured on a lattice of overrides")
+    fn = anchor_fn(ctx, rid, f, SVGB + "::image")
+    if not fn:
+        return
+    if SVGB not in f.adts:
+        ctx.anchor_missing(rid, SVGB)
+        return
+    _G["facts"] = f
+    _G["frame_over_versions"] = {1, 2, 7, 20, 40} if ctx.tier != "thorough" else set(range(1, 41))
+    mp = multiprocessing.get_context("fork")
+    with mp.Pool(min(16, os.cpu_count() or 1)) as pool:
+        res = pool.map(_frame_job, list(range(40, 0, -1)), chunksize=1)
+    res.sort(key=lambda r: r["v"])
+    groups = _Groups()
+    und = _Und()
+    n_ok = 0
+    eps = 1e-9
+    sides = {}
+
+    def geom(o):
+        return [o[("rect", a)] for a in ("x", "y", "width", "height")] + [o[("image", a)] for a in ("x", "y", "width", "height")]
+
+    for job in res:
+        v = job["v"]
+        n = ref.side(v)
+        for (shape, m), (kind, o) in sorted(job["default"].items()):
+            inst = "V%02d/%s/margin=%d" % (v, shape, m)
+            if kind != "ret":
+                (groups.add("panics", inst, "markup", o) if kind == "diverge" else und.add(o, inst))
+                continue
+            g = geom(o)
+            if o["n_rect"] != 1 or o["n_image"] != 1 or any(x is None for x in g):
+                und.add("frame/image element attributes not found as numbers in the markup", inst)
+                continue
+            x, y, w, h, ix, iy, iw, ih = g
+            S = n + 2 * m
+            bad = []
+            if abs(w - h) > eps or abs(iw - ih) > eps:
+                bad.append(("not-square", "w=h", (w, h, iw, ih)))
+            if abs(x + w / 2 - S / 2) > eps or abs(y + h / 2 - S / 2) > eps:
+                bad.append(("not-centred", "centre (%s,%s)" % (S / 2, S / 2), (x + w / 2, y + h / 2)))
+            if abs(x - round(x)) > eps or abs(y - round(y)) > eps or abs(w - round(w)) > eps:
+                bad.append(("off-module-boundaries", "integer x, y, side", (x, y, w)))
+            if not w < 0.4 * n:
+                bad.append(("too-large", "< %.1f" % (0.4 * n), w))
+            if x - m < 8 - eps or (x - m) + w > n - 8 + eps:
+                bad.append(("overlaps-finder-zone", "inside [8, %d]" % (n - 8), (x - m, x - m + w)))
+            if abs(ix + iw / 2 - (x + w / 2)) > 0.005 + eps or abs(iy + ih / 2 - (y + h / 2)) > 0.005 + eps:
+                bad.append(("image-not-centred-in-frame", (x + w / 2, y + h / 2), (ix + iw / 2, iy + ih / 2)))
+            if iw > w + eps or iw <= 0:
+                bad.append(("image-larger-than-frame", "0 < image <= %s" % w, iw))
+            sides[(shape, m, v)] = w
+            if v > 1 and (shape, m, v - 1) in sides and w < sides[(shape, m, v - 1)] - eps:
+                bad.append(("side-shrinks-with-version", ">= %s" % sides[(shape, m, v - 1)], w))
+            if bad:
+                for b in bad[:2]:
+                    groups.add("default/" + b[0], inst, b[1], b[2])
+            else:
+                n_ok += 1
+        for key, (kind, o) in sorted(job["over"].items(), key=lambda kv: str(kv[0])):
+            shape, m, size, gap, pos = key
+            inst = "V%02d/%s/margin=%d/size=%s/gap=%s/pos=%s" % (v, shape, m, size, gap, pos)
+            if kind != "ret":
+                (groups.add("panics", inst, "markup", o) if kind == "diverge" else und.add(o, inst))
+                continue
+            g = geom(o)
+            if any(x is None for x in g):
+                und.add("frame/image element attributes not found as numbers in the markup", inst)
+                continue
+            x, y, w, h, ix, iy, iw, ih = g
+            bad = []
+            if size is not None and abs(iw - size) > eps:
+                bad.append(("size-not-honoured", size, iw))
+            if gap is not None:
+                want = iw + 2 * gap
+                if not (abs(w - want) <= eps or (pos is None and abs(w - (want - 1)) <= eps) or (pos is not None and abs(w - (want - 1)) <= eps)):
+                    bad.append(("gap-not-honoured", "%s (or one less after alignment)" % want, w))
+            if pos is not None and (abs(x + w / 2 - pos[0]) > eps or abs(y + h / 2 - pos[1]) > eps):
+                bad.append(("not-centred-on-position", pos, (x + w / 2, y + h / 2)))
+            if abs(ix + iw / 2 - (x + w / 2)) > 0.005 + eps or abs(iy + ih / 2 - (y + h / 2)) > 0.005 + eps:
+                bad.append(("image-not-centred-in-frame", (x + w / 2, y + h / 2), (ix + iw / 2, iy + ih / 2)))
+            if abs(w - h) > eps or abs(iw - ih) > eps:
+                bad.append(("not-square", "w=h", (w, h, iw, ih)))
+            if bad:
+                for b in bad[:2]:
+                    groups.add("override/" + b[0], inst, b[1], b[2])
+            else:
+                n_ok += 1
+    if n_ok:
+        ctx.ok(rid, "%d (version, shape, margin[, overrides]) placements satisfy every clause" % n_ok, n=n_ok)
+    groups.emit(ctx, rid, SVGB + "::image", where_fn(fn), fn.path,
+                "the image frame / image placement computed by SvgBuilder::image violates a clause of the documented placement "
+                "(first configuration shown)")
+    und.emit(ctx, rid, "SvgBuilder::image", where_fn(fn))
+    ctx.floor(rid, "placements evaluated", n_ok + und.count + sum(len(e["insts"]) for e in groups.g.values()), 2040)
+    return not und.count
